@@ -20,7 +20,7 @@ type Vocab struct {
 
 	Begin                                                  *ssa.Function
 	Commit, CommitData, CommitUnstable, CommitFh, Abort    *ssa.Function
-	commitWait, preCommit, postCommit, releaseInodes       *ssa.Function
+	preCommit, postCommit, releaseInodes                   *ssa.Function
 	ReleaseInode, LockInode, GetInodeLocked                *ssa.Function
 	GetInodeInumFree, GetInodeInum, GetInodeFh, AllocInode *ssa.Function
 	GetInodeUnlocked, OwnInum                              *ssa.Function
@@ -108,7 +108,6 @@ func resolveVocab(P *Program) *Vocab {
 	get(&v.CommitUnstable, "fstxn.(*FsTxn).CommitUnstable")
 	get(&v.CommitFh, "fstxn.(*FsTxn).CommitFh")
 	get(&v.Abort, "fstxn.(*FsTxn).Abort")
-	get(&v.commitWait, "fstxn.(*FsTxn).commitWait")
 	// thin wrappers of the allocator epilogues: a tree may write them out in the commit funnel
 	v.preCommit = P.Func("fstxn.(*FsTxn).preCommit")
 	v.postCommit = P.Func("fstxn.(*FsTxn).postCommit")
